@@ -30,6 +30,14 @@ def runVec (xs : List Int) (ops : List String) (isStr : Bool) : String × String
     let (mx, mo, sx, so, dead) := acc
     if dead then acc else
     match o.splitOn ":" with
+    | ["srch", form, kind, needle, p] =>
+        (match kind.toNat?, parseInt? p with
+         | some k, some p =>
+            let nd : List Int := if needle == "e" then [] else (needle.splitOn ".").filterMap parseInt?
+            let pos : Nat := if form == "1" then strSearchDefaultPos k else (if p < 0 then (18446744073709551616 - p.natAbs) else p.toNat)
+            let f := fun (ys : List Int) => s!"ok size {strSearch k ys nd pos}|{showInts ys}"
+            (mx, mo ++ [f mx], sx, so ++ [f sx], false)
+         | _, _ => (mx, mo ++ ["bad-op"], sx, so ++ ["bad-op"], true))
     | ["sub", p, l] =>
         (match parseInt? p, parseInt? l with
          | some p, some l =>
